@@ -701,6 +701,9 @@ def unit_rewrites(ud, rel, s, rw):
             s = rw.regex('T14', s, r'\b1\.0 / (\w+)', r'verif_fdiv(1.0, \1)')
         if stack == 'complex':
             s = rw.literal('T3', s, 'use num_complex::Complex;', '')
+        if stack == 'decimal' and part == 'ast':
+            # T27 (as for eval_f64 / eval_number): gamma() is verified as gamma_impl, callers see the wrapper of the contract prelude
+            s = rw.regex('T27', s, r'\bfn gamma\(a: Decimal\) -> Option<Decimal> \{', 'fn gamma_impl(a: Decimal) -> Option<Decimal> {', expect_min=1)
         if stack == 'decimal':
             # T8: associated constants;  T15: `x op= e;` -> `x = x op (e);` (Decimal is Copy; vstd has no *Assign specs)
             s = t8_decimal_consts(s, rw)
